@@ -377,6 +377,10 @@ pub async fn proxy<Frontend: SocketSend + SocketRecv, Backend: SocketSend + Sock
     }
 }
 
+#[cfg(feature = "verif-hooks")]
+#[doc(hidden)]
+pub mod __verif;
+
 pub mod prelude {
     //! Re-exports important traits. Consider glob-importing.
 
